@@ -306,6 +306,65 @@ def mc_registry(chk, universe, emit=True, timeout=3000):
     return out
 
 
+def hidden_union_cases(rng, n):
+    """two sibling lists of look-alike objects (they merge) whose common field `a` is, across the objects of each list, missing /
+    a scalar / a list of mixed scalars: the merge of the two models meets a required or optional field with an Optional[Union[...]]
+    field of the other model -- unions hidden behind Optional, inside List or Dict, must still be simplified and merged with their
+    siblings (int next to float, str next to pseudo-types or literals, two List members, partial Literals)"""
+    scal = [True, 1, 1.5, None, "s", "t", "1", "2.5", "x" * 21]
+    cases = []
+
+    def aval():
+        r = rng.random()
+        if r < 0.2:
+            return "MISSING"
+        if r < 0.5:
+            return rng.choice(scal)
+        inner = [rng.choice(scal) for _ in range(rng.choice([1, 2, 3]))]
+        if rng.random() < 0.3:
+            inner = [inner, [rng.choice(scal)]]        # one level deeper
+        if rng.random() < 0.2:
+            return {"k1": inner, "k2": rng.choice(scal)}
+        return inner
+
+    # the shape that hides a union two levels down: x.a = Optional[List[U1]], y.a = Optional[Union[List[U2], scalar]], where U1 and U2
+    # only simplify together (int / float, pseudo-type / long string, two literal sets, literal set / long string)
+    PAIRS = [([True, 1, None], [1.5]), ([1], [1.5, None]), (["1"], ["x" * 21]), (["1", True], ["2.5"]), (["c1", "c2"], ["d1", "x" * 25]),
+             (["c1", "c2"], ["d1", "d2"]), ([[1]], [[1.5]]), ([{"k1": 1}], [{"k1": 1.5}]), (["1.5"], ["1", None]), ([1, "s"], [1.5, "t"])]
+    for _ in range(n * 2 // 3):
+        l1, l2 = rng.choice(PAIRS)
+        if rng.random() < 0.5:
+            l1, l2 = l2, l1
+        xs = [{"k": 1, "p": 1, "a": list(l1)}, {"k": 1, "p": 1}]
+        ys = [{"k": 1, "p": 1, "a": list(l2)}, {"k": 1, "p": 1, "a": rng.choice(["s", 1, True, "1"])}, {"k": 1, "p": 1}]
+        if rng.random() < 0.3:
+            xs = xs[:1]
+        if rng.random() < 0.3:
+            ys = ys[:2]
+        rng.shuffle(xs)
+        rng.shuffle(ys)
+        s = {"x": xs, "y": ys} if rng.random() < 0.5 else {"y": ys, "x": xs}
+        if rng.random() < 0.25:
+            s = {"w": [{"k": 1, "p": 1, "a": rng.choice([None, [None], [[1]]])}], **s}
+        cases.append(([("Root", [s])], {"dkr": ["k\\d"]}, rng.choice([[("percent", 70), ("number", 10)], [("number", 2)], [("percent", 50)]]), "hid"))
+    for _ in range(n - n * 2 // 3):
+        def objs():
+            out = []
+            for _ in range(rng.choice([1, 2, 3])):
+                o = {"k": 1, "p": 1}
+                v = aval()
+                if v != "MISSING":
+                    o["a"] = v
+                out.append(o)
+            return out
+        s = {"x": objs(), "y": objs()}
+        if rng.random() < 0.3:
+            s["z"] = objs()
+        env = {"dkr": ["k\\d"]} if rng.random() < 0.3 else {}
+        cases.append(([("Root", [s])], env, rng.choice([[("percent", 70), ("number", 10)], [("number", 2)], [("percent", 50)]]), "hid"))
+    return cases
+
+
 def two_level_cases(rng, n):
     """two similar parent objects, each holding (directly / in a list / in a mapping / optionally) a child; the children are
     similar but not identical: parents and children form two merge groups, and the merged parent refers to both children"""
